@@ -412,6 +412,8 @@ func Execute(s Script) Result {
 					}
 					release()
 				} else {
+					// the copy is the consumer's own: it keeps it, overwrites it and grows it
+					sl = append(sl, -sum, -sum-1)
 					kept = append(kept, sl)
 					for _, k := range kept {
 						for i := range k {
